@@ -311,3 +311,54 @@ def rule_post_helper(ctx):
         else:
             obs.append(undecided('POST-HELPER', name + '/answer', 'the answer is read by %s' % [r['method'] for r in readers], fn.loc))
     return obs
+
+
+# ================================================================================================
+# DEP-FEATURES — the resolved feature set of serde / serde_json in the workspace build
+# ================================================================================================
+
+# serde_json features under which numbers stop being plain numbers for serde's buffered content (serde-rs/json#505, serde-rs/serde#1183):
+# generated code relies on buffering for `#[serde(tag = "__typename")]`, `#[serde(flatten)]` and the untagged ID helper
+CONTENT_HOSTILE = {'serde_json': {'arbitrary_precision'}}
+
+
+@rule('DEP-FEATURES')
+def rule_dep_features(ctx):
+    import json
+    import os
+    import subprocess
+    from .facts import REPO
+    env = dict(os.environ)
+    env['CARGO_NET_OFFLINE'] = 'true'
+    try:
+        r = subprocess.run(['cargo', 'metadata', '--offline', '--format-version', '1'], cwd=REPO, env=env, stdout=subprocess.PIPE, stderr=subprocess.PIPE, text=True, timeout=120)
+        md = json.loads(r.stdout)
+    except Exception as e:  # noqa
+        return [bad('DEP-FEATURES', 'floor', 'anchor-missing: cargo metadata did not resolve the workspace (%s)' % str(e)[:120])]
+    obs = []
+    names = {p['id']: p for p in md.get('packages', [])}
+    seen = set()
+    for n in (md.get('resolve') or {}).get('nodes', []):
+        p = names.get(n['id'])
+        if p is None or p['name'] not in CONTENT_HOSTILE:
+            continue
+        seen.add(p['name'])
+        hostile = sorted(set(n.get('features', [])) & CONTENT_HOSTILE[p['name']])
+        if not hostile:
+            obs.append(ok('DEP-FEATURES', p['name'], 'resolved features %s' % sorted(n.get('features', [])), 'Cargo.lock'))
+            continue
+        # which workspace manifest asks for it
+        askers = []
+        for wid in md.get('workspace_members', []):
+            wp = names.get(wid)
+            for d in (wp or {}).get('dependencies', []):
+                if d['name'] == p['name'] and set(d.get('features', [])) & set(hostile):
+                    askers.append(os.path.relpath(wp['manifest_path'], REPO))
+        for h in hostile:
+            obs.append(bad('DEP-FEATURES', '%s/%s' % (p['name'], h), '%s is built with feature `%s` (requested by %s)' % (p['name'], h, ', '.join(sorted(set(askers))) or 'a dependency'),
+                           (sorted(set(askers)) or ['Cargo.lock'])[0],
+                           'numbers inside internally tagged unions, flattened fragment spreads and the untagged ID helper are buffered as maps and no longer deserialize'))
+    for want in CONTENT_HOSTILE:
+        if want not in seen:
+            obs.append(bad('DEP-FEATURES', 'floor/' + want, 'anchor-missing: %s is not in the resolved dependency graph' % want))
+    return obs
